@@ -1,20 +1,42 @@
+def _ceil_div(a, b):
+    return -((-a) // b)
+
+
 def sig(fl):
     """classify a rejected event (diagnostic label + known-finding key only; the verdict was TLC's)"""
     e = fl["event"]
     op = e.get("op")
-    reset = fl["segment"][0]
+    seg = fl["segment"]
+    reset = seg[0]
+    prot = set(reset.get("rcpus", []))
+    if reset.get("sysx"):
+        prot |= set(reset.get("sys", []))
+    for p in reset.get("pods", []):
+        if p.get("qos") == "LSE":
+            prot |= set(p.get("cpus", []))
+    cpus = set(p["cpu"] for p in reset.get("procs", []))
+    elig = cpus - prot
     kind = "other"
     if op == "panic":
-        prot = set(reset.get("rcpus", []))
-        if reset.get("sysx"):
-            prot |= set(reset.get("sys", []))
-        for p in reset.get("pods", []):
-            if p.get("qos") == "LSE":
-                prot |= set(p.get("cpus", []))
-        cpus = set(p["cpu"] for p in reset.get("procs", []))
-        kind = "in=%s no-eligible-cpu=%s msg=%s" % (e.get("in"), not (cpus - prot), e.get("msg"))
+        kind = "in=%s no-eligible-cpu=%s msg=%s" % (e.get("in"), not elig, e.get("msg"))
     elif op == "cpuset":
-        kind = "written=%s size=%d" % (e.get("written"), len(e.get("set", [])))
+        old = set(reset.get("old", []))
+        for x in seg[1:fl["fail_index"]]:
+            if x.get("op") == "cpuset":
+                old = set(x.get("root", []))
+        n = len(reset.get("procs", []))
+        t = min(max(2, _ceil_div(e.get("q", 0), 1000)), len(old) + (n + 9) // 10)
+        s = set(e.get("set", [])) if e.get("written") else set()
+        if s & prot:
+            kind = "protected-cpu-in-set"
+        elif s - cpus:
+            kind = "unknown-cpu-in-set"
+        elif len(s) > t:
+            kind = "more-than-budgeted"
+        elif len(elig) >= t and len(s) < t:
+            kind = "fewer-than-budgeted-although-enough-eligible written=%s" % e.get("written")
+        elif reset.get("kubelet") == "static":
+            kind = "static-root-has-protected-cpu"
     return "op=%s %s" % (op, kind)
 
 
